@@ -53,8 +53,8 @@ func (f *IntegerLength) Call(s *slip.Scope, args slip.List, depth int) (result s
 	case *slip.Bignum:
 		bi := (*big.Int)(ta)
 		if bi.Sign() < 0 {
-			bi = bi.Add(bi, big.NewInt(1))
-			bi = bi.Neg(bi)
+			// Not in a new integer, the argument must stay as it is.
+			bi = new(big.Int).Not(bi)
 		}
 		result = slip.Fixnum(bi.BitLen())
 	default:
